@@ -19,6 +19,10 @@ CHECKS = {
          "The real round-robin load balancer is driven through OnEvent/NewQueryPlan/Next: an exhaustive sweep of well-formed event histories over up to 4-5 hosts, seeded long histories, and concurrent planner tasks racing an event task under the token scheduler; every plan must yield some membership of its creation window exactly once, never a duplicate, with rotating starts and balanced first choices.", "§7 C15"),
  "C08": ("deterministic simulation: PREPARE/EXECUTE/BATCH histories over several clients with node restarts, late-joining nodes (simulated refresh window), scripted re-prepare outcomes and a harness-owned prepared cache; wire oracle at the clients and the backends",
          "Clients prepare statements and execute them until every host has been reached, across node restarts, nodes that join after start-up (topology event, refresh window on the fake clock), compressed sessions and scripted re-prepare failures; a client must never see UNPREPARED for an id the (harness-owned) cache holds, every EXECUTE/BATCH gets exactly one reply, and every frame the proxy sends while re-preparing must be decodable on its target connection.", "§7 C08"),
+ "C07": ("deterministic simulation: interleaved USE/data histories of several clients with different versions and compressions, concurrent session creation under the token scheduler; backend-side oracle on the carrying connection",
+         "Several clients with different protocol versions and compressions interleave USE (valid, quoted, mixed-case, missing, refused by one host) with tokenised requests, including several clients switching to the same keyspace in one scheduling window; for every request the fake backend's view of the carrying connection (keyspace of its last USE, STARTUP version, compression) must equal the per-client model, and USE replies must name the keyspace as the backend does or carry the backend's error.", "§7 C07"),
+ "C14": ("deterministic simulation: connect/register/disconnect histories against schema, topology and status events with control-connection kills; per-client delivery-count oracle with an explicit ambiguity window",
+         "Clients register for subsets of event types, disconnect and reconnect while fake backends emit schema (all targets), topology and status events on the current control connection and the control connection is killed and fails over; each event the proxy fully read must reach every client whose schema REGISTER was answered before emission and that is still connected exactly once with equal content, never twice, never an unregistered client, and no topology/status event may reach any client.", "§7 C14"),
 }
 
 NOT_APPLICABLE = {
